@@ -734,3 +734,24 @@ Proof.
     rewrite (wrap64_small _ Hok) in S2. repeat split; [exact S1|exact S2|lia].
   - apply H3.
 Qed.
+
+(* ---------- governance proposals: frame over the maturity option ---------- *)
+Theorem unfinalised_proposals_frame l : forall gs, grun gs l = grun gs (filter (fun g => not_unfinalised g = true) l).
+Proof.
+  induction l as [|g l IH]; intros gs; [reflexivity|].
+  destruct g as [o|[|] n].
+  - rewrite filter_cons_True by reflexivity. simpl. apply IH.
+  - rewrite filter_cons_True by reflexivity. simpl. apply IH.
+  - rewrite filter_cons_False by (simpl; discriminate). simpl. destruct gs as [s m]. simpl. apply IH.
+Qed.
+
+(* an unstake run through [gstep] is recorded at height + the option in force in the store *)
+Theorem gstep_unstake_entry s m v d a ro h m0 pb ff :
+  snd (step s (OUnstake v d a false ro h m pb ff)) = true ->
+  mat (fst (gstep (s, m) (GOp (OUnstake v d a false ro h m0 pb ff))))
+    = <[h + m := mat_at s (h + m) ++ [(d, a)]]> (mat s).
+Proof.
+  intros Hok. unfold gstep, set_m. cbn [fst snd].
+  destruct (step s (OUnstake v d a false ro h m pb ff)) as [s' ok] eqn:E. simpl in Hok. subst ok.
+  destruct (unstake_entry _ _ _ _ _ _ _ _ _ _ E) as [Hm _]. exact Hm.
+Qed.
